@@ -35,6 +35,25 @@ Theorem selected_is_eligible_any_state :
     In h (picks (snd (select s c key))) -> eligible s (c_list (cget s c)) h.
 Proof. exact selected_is_eligible_lemma. Qed.
 
+(** 1b. The entry points the sessions use ([backend_from_cluster_id] for every
+    new backend connection, [backend_from_sticky_session] when the request
+    carries a sticky cookie): whatever the history, the backend a connection is
+    attempted to is eligible in the state in which the choice is made — or it is
+    the sticky backend, which is in the cluster and can open. *)
+Theorem connection_goes_to_eligible :
+  forall (ops : list op) (c : nat) (w : N) s' h code,
+    let s := run_ops init ops in
+    backend_from_cluster s c w = (s', Some h, code) -> eligible s (c_list (cget s c)) h.
+Proof. intros ops c w s' h code s. apply backend_from_cluster_eligible. Qed.
+
+Theorem sticky_connection_goes_to_eligible :
+  forall (ops : list op) (c : nat) (sid w : N) s' h code,
+    let s := run_ops init ops in
+    backend_from_sticky s c sid w = (s', Some h, code) ->
+    (find_sticky s c sid = Some h /\ In h (c_list (cget s c)) /\ can_open (s_now s) (bk s h) = true) \/
+    (find_sticky s c sid = None /\ eligible s (c_list (cget s c)) h).
+Proof. intros ops c sid w s' h code s. apply backend_from_sticky_eligible. Qed.
+
 (** 2. A backup that can open is only returned when no primary of the cluster can. *)
 Theorem backup_only_when_no_primary :
   forall (ops : list op) (c : nat) (key : option N) (h : nat),
